@@ -79,7 +79,7 @@ def ar_programs(thorough):
         return {"roe": roe, "deb": deb, "dos": dos, "kill_after": ka, "fine": False}
 
     allopts = [opts(r, d, s, ka) for r in (True, False) for d in (0, 2) for s, ka in ((True, 0.5), (False, 0.5), (False, 0))]
-    b_small = 2 if thorough else 1
+    b_small = 1 if thorough else 0
     # sequential: everything comes to rest between two steps (no two restarts / stop ever overlap)
     for o in allopts:
         seq = [["ev", "m"], ["settle"], ["exit"], ["settle"], ["ev", "x"], ["ev", "o"], ["ev", "v"], ["settle"], ["exit"],
@@ -96,7 +96,7 @@ def ar_programs(thorough):
     # an event while stop() runs
     for o in allopts:
         out.append((dict(o, fam="ar_ev_stop", threads={"disp": [["ev", "m"]], "app": [["stop"]]}),
-                    2 if (thorough and (not o["deb"] or (o["roe"] and o["dos"]))) else 1))
+                    2 if (thorough and not o["deb"]) else 1))
         if thorough:
             out.append((dict(o, fam="ar_ev_stop", threads={"disp": [["ev", "m"], ["ev", "m"]], "app": [["sleep", 1], ["stop"]]}), 1))
     # the child exits by itself while stop() runs
@@ -119,7 +119,7 @@ def sh_programs(thorough):
             o = {"wait": wait, "drop": drop}
             plain = not (wait or drop)   # nothing is demanded without either option: one schedule class is enough
             b = 0 if plain else (2 if thorough else 1)
-            out.append((dict(o, fam="sh", threads={"disp": [["ev", "m"], ["ev", "m"], ["ev", "x"], ["ev", "m"]]}), b))
+            out.append((dict(o, fam="sh", threads={"disp": [["ev", "m"], ["ev", "m"], ["ev", "x"]] + ([] if plain else [["ev", "m"]])}), b))
             out.append((dict(o, fam="sh", threads={"disp": [["ev", "m"], ["sleep", 1], ["ev", "o"], ["ev", "v"]],
                                                    "env": [["exit"], ["sleep", 1], ["exit"]]}), b))
             if thorough and not plain:
@@ -131,14 +131,26 @@ def sh_programs(thorough):
 # ----------------------------------------------------------------------------- exploration plumbing
 
 
-def _dfs_all(programs, jobs, chunk=200):
-    """Bounded-preemption DFS over many programs on ONE process pool: a job explores at most `chunk` executions of
-    its sub-trees of one program and hands the unexplored stack entries back (harness.explore._dfs_job), so that
-    big and small programs share the workers evenly.  Returns [(executions, unique records)] per program."""
-    per = [[] for _ in programs]
-    queue = [(i, [[]]) for i in range(len(programs))]
-    pending = []
+def _dfs_capped(args):
+    scen, params, bound, cap = args
+    n, recs, bad, left = explore._dfs_job((scen, params, bound, [[]], cap))
+    return n, recs, bad, len(left)
+
+
+def _dfs_all(programs, jobs, chunk=200, cap=None):
+    """Bounded-preemption DFS over many programs on ONE process pool.  Returns [(executions, unique records,
+    complete?)] per program.
+    cap = None: a job explores at most `chunk` executions of its sub-trees of one program and hands the unexplored
+    stack entries back (harness.explore._dfs_job), so that big and small programs share the workers evenly.
+    cap = n: every program is explored by one worker, depth first, for at most n executions (deterministic prefix of
+    the enumeration; the programs that were cut short are counted)."""
     with mp.get_context("fork").Pool(jobs) as pool:
+        if cap is not None:
+            res = pool.map(_dfs_capped, [(s_, p, b, cap) for s_, p, b in programs], chunksize=1)
+            return [explore._merge([(n, recs, bad)]) + (left == 0,) for n, recs, bad, left in res]
+        per = [[] for _ in programs]
+        queue = [(i, [[]]) for i in range(len(programs))]
+        pending = []
         while queue or pending:
             while queue and len(pending) < 3 * jobs:
                 i, st = queue.pop()
@@ -159,7 +171,7 @@ def _dfs_all(programs, jobs, chunk=200):
                         part = left[j::k]
                         if part:
                             queue.append((i, part))
-    return [explore._merge(r) for r in per]
+    return [explore._merge(r) + (True,) for r in per]
 
 
 def _tlc_design(c, jobs):
@@ -225,20 +237,25 @@ def run(c: checklib.Check):
     programs = [(DEB, p, (bound_deb if p["fam"] == "deb_seq" else bound_deb - 1)) for p in deb_programs(c.thorough)]
     programs += [(AR, p, b) for p, b in ar_programs(c.thorough)]
     programs += [(SH, p, b) for p, b in sh_programs(c.thorough)]
+    cap = None if c.thorough else 1200
     try:
-        results = _dfs_all(programs, c.jobs)
+        results = _dfs_all(programs, c.jobs, cap=cap)
     except explore.ExploreError as e:
         c.machinery_failure(str(e))
     per_fam = {}
-    for (scen, params, bound), (n, recs) in zip(programs, results):
+    cut = 0
+    for (scen, params, bound), (n, recs, whole) in zip(programs, results):
         total += n
+        cut += 0 if whole else 1
         add(scen, params, recs, params["fam"])
         a = per_fam.setdefault(params["fam"], [0, 0, 0])
         a[0] += 1
         a[1] += n
         a[2] += len(recs)
-    c.note("dfs (debouncer b=%d/%d, tricks b=1/2): %d programs, %d executions, %d distinct traces; per family "
-           "[programs, executions, traces]: %s" % (bound_deb, bound_deb - 1, len(programs), total, len(traces), per_fam))
+    c.note("dfs (debouncer b=%d/%d, tricks b=0..2%s): %d programs, %d executions, %d distinct traces; per family "
+           "[programs, executions, traces]: %s" % (bound_deb, bound_deb - 1,
+                                                   "" if cap is None else f"; at most {cap} executions per program, {cut} programs cut short",
+                                                   len(programs), total, len(traces), per_fam))
     # random programs x random / PCT schedules, attribute accesses of the trick as yield points
     nrand = 4000 if c.thorough else 600
     base = c.seed * 1000003
